@@ -113,6 +113,14 @@ def gen_c03(tier, rng):
     big[36:38] = b"\xff\xff"
     big = bytes(big[:38]) + bytes(65536) + be(3, 2) + b"abc"
     cases.append(Case("c03big", ["val if " + big.hex(), "val if " + big[:-4].hex()], True, ("if", "count-wrap")))
+    # payload objects of 64 KiB and more (they cannot arrive in one message, but the classes are public: `AnalogPayload(data, size)`):
+    # sizes whose low 16 bits are smaller than the header, exactly 65536, and one below
+    for k, mk in (("analog", lambda n: proto.analog_payload(proto.rand_bytes(rng, n - 16), flags=rng.choice([0, 1]))),
+                  ("eth", lambda n: proto.eth_payload(proto.rand_bytes(rng, n - 6), data_len=(n - 6) & 0xFFFF))):
+        ops = []
+        for n in (65535, 65536, 65537, 65540, 65551, 65552, 131072 + 4):
+            ops.append("val %s %s" % (k, mk(n).hex()))
+        cases.append(Case("c03big", ops, True, (k, "payload-of-64KiB-and-more"), meta={"noshrink": True}))
     # message level: buffers accepted by isValidPacket become packets
     ops = []
     for _ in range(300 if tier == "quick" else 4000):
